@@ -44,3 +44,16 @@ Example C11_two_orderings :
   exists p1 p2 b1 b2, parsed_formula (fun _ => UOther) nil txt = Done p1 /\ parsed_formula (fun _ => UOther) ((a, 5) :: nil) txt = Done p2 /\
     eval_f 20 (pf_form p1) = Some b1 /\ eval_f 20 (pf_form p2) = Some b2 /\ b1 = Nd (Nd F 1 T) 0 F /\ b2 = Nd F 5 (Nd T 6 F).
 Proof. do 4 eexists. repeat split; vm_compute; reflexivity. Qed.
+
+(** order-isomorphic id assignments give the same diagram up to the renaming: only the relative order of the ids matters, so
+    sparse 64-bit ids may be replaced by their ranks (used by the correspondence suite S-text/evalid) *)
+From Rsbdd Require Import Lang.RankIso Lang.Free Lang.Eval.
+Theorem C11_rank_iso (p : nat -> nat) : (forall x y, x < y -> p x < p y) -> forall n m f b1 b2, nofsub f ->
+  eval_f n f = Some b1 -> eval_f m (rename p f) = Some b2 -> b2 = bmap p b1.
+Proof. exact (RankIso.C11_rank_iso p). Qed.
+Print Assumptions C11_rank_iso.
+Example C11_rank_instance :
+  let f := FBin BOr (FBin BAnd (FVar 0) (FNot (FVar 1))) (FQuant QExists (2 :: nil) (FBin BAnd (FVar 2) (FVar 3))) in
+  let p := fun x => 1000 * x + 7 in
+  eval_f 20 (rename p f) = option_map (bmap p) (eval_f 20 f) /\ eval_f 20 f <> None.
+Proof. vm_compute. split; [reflexivity|discriminate]. Qed.
